@@ -219,3 +219,32 @@ func selectBodyPath(paths []*PathSum, asg Asg) (*PathSum, string) {
 	}
 	return row, err
 }
+
+// impliesInt: do the path's conditions imply pred(term)? The term must occur in the
+// conditions; all integer terms are enumerated on [lo,hi], boolean symbols both ways.
+func impliesInt(ps *PathSum, term string, lo, hi int64, pred func(v int64) bool) bool {
+	ints, bools := tableVars([]*PathSum{ps})
+	found := false
+	for _, t := range ints {
+		if t == term {
+			found = true
+		}
+	}
+	if !found {
+		return false
+	}
+	ok := true
+	sat := false
+	enumGrid(ints, lo, hi, bools, nil, func(a Asg) bool {
+		holds, good := evalPath(ps, a)
+		if !good || !holds {
+			return true
+		}
+		sat = true
+		if !pred(a.I[term]) {
+			ok = false
+		}
+		return ok
+	})
+	return ok && sat
+}
